@@ -495,7 +495,7 @@ func (s scen) make(q, t vrt.Bounds) *vrt.Scenario {
 	}
 	return &vrt.Scenario{Name: s.name, Prop: s.prop, Body: body, Check: check, Quick: q, Thorough: t,
 		Setup:          envsim.SetupExec,
-		Cfg:            vrt.Config{Preempt: envsim.InterComponent, FreeSwitchCost: true},
+		Cfg:            vrt.Config{Preempt: envsim.InterComponent, NoLockPoints: true, FreeSwitchCost: true},
 		DeadlockClause: "hang(not-started-together-or-lost-wakeup)", PanicClause: "panic-or-fatal",
 		NonTrivial: func(x *vrt.Exec) bool { return w != nil && w.Count("start", "h0") > 0 },
 		Doc:        fmt.Sprintf("%d hooks, %d transitions", s.n, len(s.seq))}
